@@ -38,6 +38,13 @@ pub struct ServerCodec {
 
 impl ServerCodec {
     fn decode_packet(&mut self, src: &mut BytesMut) -> Result<Option<InboundIn>, anyhow::Error> {
+        if src.remaining() < 2 {
+            return Ok(None);
+        }
+        let head = address::try_decode_at(src, 0)? + 2 + trojan::CR_LF.len();
+        if src.remaining() < head || src.remaining() < head + u16::from_be_bytes([src[head - 4], src[head - 3]]) as usize {
+            return Ok(None);
+        }
         let peer_addr = address::decode(src)?;
         let len = src.get_u16();
         src.advance(trojan::CR_LF.len());
